@@ -330,6 +330,11 @@ package nbhttp
 //@   assigns everything
 //@   note client side: the reason phrase handed to the processor is everything between the status code and CR (C07)
 //@   at before:OnStatus#1 assert fulltext: len(arg_status) == i - start   // prop C07
+//@   note what is handed to the processor is cut out of the stream at exactly the token boundaries (C07: message and token boundaries)
+//@   at before:OnURL#1 assert uri: len(arg_uri) == i - start   // prop C07
+//@   at before:OnBody#1 assert body: len(arg_data) == p.contentLength && base(arg_data) == base(data) && off(arg_data) == off(data) + start   // prop C07
+//@   at before:OnBody#2 assert chunk: len(arg_data) == p.chunkSize && base(arg_data) == base(data) && off(arg_data) == off(data) + start   // prop C07
+//@   at before:OnContentLength#1 assert cl: arg_contentLength == p.contentLength && p.contentLength >= -1   // prop C07
 //@   note the upgraded protocol's parser does not reach into the HTTP parser that feeds it
 //@   at entry ghost { p.gUp = false; p.gRow = bytes_row(base(data)) }
 //@   at call:Append#1 ghost { p.gRow = bytes_row(base(*result)) }
